@@ -87,6 +87,7 @@ class AssembleMonitor(object):
         self.judges = list(judges)
         self.snapshot = snapshot  # callable(record) -> comparable, or None
         self.tag = None           # set by the driver to label the next call(s)
+        self.keep_filters = False  # set by the driver: do not record warnings, let the caller's filters act inside the call
         self.last = None
 
     def install(self):
@@ -105,12 +106,21 @@ class AssembleMonitor(object):
             obs.tag = monitor.tag
             recs = [vec.record] + [m.record for m in obs.mods if hasattr(m, "record")]
             obs.pre = [monitor.snapshot(r) for r in recs] if monitor.snapshot else None
-            with warnings.catch_warnings(record=True) as caught:
-                warnings.simplefilter("always")
+            if monitor.keep_filters:
+                # the caller's own warning filters decide (e.g. "error": a warning is raised *inside* the call, at the point
+                # where the library issues it); nothing is recorded
+                caught = []
                 try:
                     obs.product = orig(vec, module, *modules, **kwargs)
                 except BaseException as e:
                     obs.error = e
+            else:
+                with warnings.catch_warnings(record=True) as caught:
+                    warnings.simplefilter("always")
+                    try:
+                        obs.product = orig(vec, module, *modules, **kwargs)
+                    except BaseException as e:
+                        obs.error = e
             obs.warnings = [w for w in caught]
             obs.unused_sets = [w.message.remaining for w in caught if isinstance(w.message, errors.UnusedModules)]
             if monitor.snapshot:
@@ -234,14 +244,33 @@ def install_walk_guard(ctx, cap=64):
     orig = AbstractModule.target_sequence
     counts = {}
 
+    inside = [0]
+
     def target_sequence(self):
+        if not inside[0]:
+            return orig(self)          # a user looking at a part, not the chain walk
         c = counts[id(self)] = counts.get(id(self), 0) + 1
         if c > cap:
             counts.clear()
-            raise RunawayWalk("module %s extracted %d times in one process without being consumed" % (self.record.id, c))
+            raise RunawayWalk("module %s extracted %d times in one assembly without being consumed" % (self.record.id, c))
         return orig(self)
 
     AbstractModule.target_sequence = target_sequence
+
+    # the count is per assembly: object addresses are reused by later entities, so a process-wide tally would creep up
+    from moclo.core._assembly import AssemblyManager
+
+    orig_assemble = AssemblyManager.assemble
+
+    def assemble(self, *a, **kw):
+        counts.clear()
+        inside[0] += 1
+        try:
+            return orig_assemble(self, *a, **kw)
+        finally:
+            inside[0] -= 1
+
+    AssemblyManager.assemble = assemble
     return counts
 
 
